@@ -91,6 +91,13 @@ static void do_line(char *work, const char *orig) {
 			v = KSI_PublicationsFile_verify(pf, ctx);
 			v2 = KSI_verifyPublicationsFile(ctx, pf);
 			printf("P0 signed=%zu V%d W%d", sl, v, v2);
+			{	/* serializing the object changes neither the signed range nor the verdict */
+				char *ser = NULL; size_t serl = 0, sl3 = 0; int rs = KSI_PublicationsFile_serialize(ctx, pf, &ser, &serl), v3;
+				KSI_PublicationsFile_getSignedDataLength(pf, &sl3);
+				v3 = KSI_PublicationsFile_verify(pf, ctx);
+				printf(" rs:%d:%zu:%d", rs, sl3, v3);
+				KSI_free(ser);
+			}
 		}
 		KSI_PublicationsFile_free(pf);
 		free_cons(fc); free_cons(cc);
